@@ -144,8 +144,10 @@ func (cc *ClusterContext) schedule() bool {
 		metrics.GetSchedulerMetrics().ObserveSchedulingLatency(schedulingStart)
 		if result != nil {
 			if result.ResultType == objects.Replaced {
-				// communicate the removal to the RM
-				cc.notifyRMAllocationReleased(psc.RmID, psc.Name, []*objects.Allocation{result.Request.GetRelease()}, si.TerminationType_PLACEHOLDER_REPLACED, "replacing allocationKey: "+result.Request.GetAllocationKey())
+				// communicate the removal to the RM, unless the replacement was reversed in the meantime
+				if release := result.Request.GetRelease(); release != nil {
+					cc.notifyRMAllocationReleased(psc.RmID, psc.Name, []*objects.Allocation{release}, si.TerminationType_PLACEHOLDER_REPLACED, "replacing allocationKey: "+result.Request.GetAllocationKey())
+				}
 			} else {
 				cc.notifyRMNewAllocation(psc.RmID, result.Request)
 			}
